@@ -1,18 +1,25 @@
 """C23 — string and number filters: contracts proved on the model (Props/C23.lean), model tied to filters.py."""
 from __future__ import annotations
 
+import base64
 import itertools
+import json
 import math
+import os
+import pickle
 import re
+import subprocess
+import sys
 import textwrap
 from fractions import Fraction
 
 from harness import core
 from harness.core import Atom
 from translate import convert_table as tr_conv
+from translate import filter_workers as tr_workers
 
 ID = "C23"
-GEN = [tr_conv.gen]
+GEN = [tr_conv.gen, tr_workers.gen]
 LEAN_MODULES = ["JinjaV.Props.C23"]
 LEVEL = "proof"
 TRUSTED = [
@@ -24,6 +31,9 @@ TRUSTED = [
     "translate/convert_table.py: READ part (the except clauses of do_int/do_float, fixed shape) and MEASURED part (which "
     "exception classes int(x[, base]), float(x), int(float(x)) raise on CPython for the sampled value classes); the "
     "convert_total theorem quantifies over the sampled rows, not over all Python values",
+    "translate/filter_workers.py: which functions are reachable from the 18 FILTERS entries is decided by name references "
+    "(module-level functions of filters.py, `from .utils import` names, transitively in utils.py); a memoising wrapper applied "
+    "other than by decorator syntax is seen only by the history run",
     "wordwrap: textwrap.wrap is a parameter of the model; its contract (keeps the non-whitespace text in order; with "
     "break_long_words no line exceeds the width) is a hypothesis of the theorems, evaluated by the driver on textwrap's actual "
     "output for every generated case, never proved",
@@ -81,8 +91,12 @@ CLAIM = dict(
          "prefix i with base^(i+1) <= value < base^(i+2) for i < 7 and value >= base^8 for the last prefix "
          "(sizeUnit_spec). int/float: over the except clauses READ from do_int/do_float and the MEASURED table of "
          "exceptions raised by int(x[,base]) / float(x) / int(float(x)) on 292 (value class, base) rows, every raised class "
-         "is caught, so a value or the default is returned and nothing escapes (convert_total = ConvertTotal at full strength, "
-         "escapingRows_nil, convert_default_on_failure, by decide on every run; finding F7 is repaired in /repo 15bb75e). Tie: every string of length "
+         "is caught, so a value or the default is returned and nothing escapes (convert_total = ConvertTotal at full strength; "
+         "no_memoised_worker: no function reachable from the 18 filters carries a decorator other than a call marker, read from "
+         "filters.py/utils.py every run; "
+         "escapingRows_nil, convert_default_on_failure, by decide on every run; finding F7 is repaired in /repo 15bb75e). Tie: first a history-independence run (1031 cases over all 18 filters with equal-valued arguments of "
+         "different type interleaved, twice in a seeded order here and twice in the opposite order in a fresh interpreter, against "
+         "model/definition: differing results are C23:<filter>:history-dependent); every string of length "
          "<= 4 (quick) / <= 5 (thorough) over {a, b, ' ', '\\n', '-', '<'} (indent: {a, ' ', '\\n', '\\r', U+2028}) x argument "
          "grids (truncate 168 combinations incl. rejected ones, indent 16, center 12, trim 6, replace 80) on the real "
          "filter functions and through rendered templates; random long Unicode strings; filesizeformat on boundary ints, "
@@ -616,8 +630,9 @@ UNRESERVED = set("ABCDEFGHIJKLMNOPQRSTUVWXYZabcdefghijklmnopqrstuvwxyz0123456789
 
 
 def ref_quote(s, for_qs):
+    """documented: bytes are quoted as they are, a string as UTF-8, anything else through str()"""
     out = []
-    for b in str(s).encode("utf-8"):
+    for b in (s if isinstance(s, bytes) else str(s).encode("utf-8")):
         ch = chr(b)
         if ch in UNRESERVED or (ch == "/" and not for_qs):
             out.append(ch)
@@ -705,6 +720,7 @@ def run_reference(ctx, res, jinja2, impl, stats):
         stats["distinct"].add(("wordwrap", s, w, blw, boh, ws))
 
     # urlencode -----------------------------------------------------------------------------------------------
+    from markupsafe import Markup
     t_url = env.from_string("{{ v|urlencode }}")
     upool = ["a", "Z", "0", "/", " ", "?", "&", "=", "+", "%", "~", "-", "_", ".", "é", "中", "😀", "#", ":", "\n", "'", '"', "<"]
     for _ in range(ctx.pick(800, 8000)):
@@ -720,6 +736,24 @@ def run_reference(ctx, res, jinja2, impl, stats):
         check("urlencode", F.do_urlencode(iter(pairs)), want, repr(pairs) + " (iterator)", "query form: nothing safe, '+' for spaces")
         stats["distinct"].add(("urlencode", s, k2, repr(v2)))
     check("urlencode", F.do_urlencode(42), "42", "42")
+    # argument kinds: unhashable keys / values, bytes, Markup, nested containers, inside mappings, pair lists, iterators
+    kinds = [[1, 2], {"a": [1]}, {1, }, b"a b/c", b"", Markup("a&b c"), ("x", [1]), None, 2.5, True, "", "a/b c", [], (1,), [1], -0.0]
+    for v in kinds:
+        for k in ["ids", Markup("k y"), b"k/", 7] + ([v] if not isinstance(v, (list, dict, set)) or True else []):
+            pairs = [(k, v), ("z", "1")]
+            want = "&".join(f"{ref_quote(a, True)}={ref_quote(b, True)}" for a, b in pairs)
+            what = "query form: str() of anything but str/bytes, UTF-8, nothing safe, '+' for spaces"
+            check("urlencode", attempt(lambda: F.do_urlencode(pairs)), want, repr(pairs), what)
+            check("urlencode", attempt(lambda: F.do_urlencode(tuple(pairs))), want, repr(tuple(pairs)), what)
+            check("urlencode", attempt(lambda: F.do_urlencode(p for p in pairs)), want, repr(pairs) + " (generator)", what)
+            check("urlencode", attempt(lambda: t_url.render(v=pairs)), want, repr(pairs) + " (render)", what)
+            try:
+                d = dict(pairs)
+            except TypeError:
+                continue
+            check("urlencode", attempt(lambda: F.do_urlencode(d)), want, repr(d), what)
+            check("urlencode", attempt(lambda: t_url.render(v=d)), want, repr(d) + " (render)", what)
+            stats["distinct"].add(("urlencode-kind", repr(k), repr(v)))
 
     # round ---------------------------------------------------------------------------------------------------
     t_round = env.from_string("{{ v|round(p, m) }}")
@@ -830,18 +864,258 @@ def unicodedata_category(ch):
     return unicodedata.category(ch)
 
 
+
+# --------------------------------------------------------------------------------------------------------------
+# every filter is a function of its arguments only: the same cases in two orders (one of them in a fresh interpreter),
+# each case twice, among equal-valued arguments of different type, against the model / definition
+# --------------------------------------------------------------------------------------------------------------
+
+def _twins():
+    from markupsafe import Markup
+    return [True, 1, 1.0, False, 0, 0.0, -0.0, "1", "1.0", "True", Markup("a"), "a", (1,), [1], None, "a b", Markup("a b"), "0", "-0.0"]
+
+
+def history_cases():
+    """(filter, args) pairs; args are plain picklable values"""
+    from markupsafe import Markup
+    T = _twins()
+    cases = []
+    for v in T:
+        for f in ("upper", "lower", "capitalize", "title", "striptags", "wordcount"):
+            cases.append((f, (v,)))
+        cases.append(("trim", (v, None)))
+        cases.append(("trim", (v, "1a")))
+        cases.append(("center", (v, 7)))
+        cases.append(("urlencode", (v,)))
+    for v in ("a b c d e f", Markup("a b c d e f"), "a", Markup("a"), "x\ny", Markup("x\ny")):
+        cases.append(("truncate", (v, 5, False, "...", 0)))
+        cases.append(("truncate", (v, 5, True, ".", 0)))
+        cases.append(("indent", (v, 2, True, False)))
+        cases.append(("indent", (v, "  ", True, True)))
+        cases.append(("wordwrap", (v, 3, True, None, True)))
+    for sv in (1.0, True, "1.0", "a", Markup("a"), 1, "True", 0.0, -0.0, False):
+        for old in (1, "1", True, "a", 0, 0.0, "0"):
+            for new in ("x", 0, 0.0, False):
+                cases.append(("replace", (sv, old, new, None)))
+    nums = [True, 1, 1.0, False, 0, 0.0, -0.0, "1", "0", "1.0", 1000, 1000.0, "1000", 2.5, "2.5"]
+    for a in nums:
+        cases.append(("format", ("%s", (a,))))
+        cases.append(("format", ("%d", (a,))))
+        for b in (True, 1.0, 0, -0.0):
+            cases.append(("format", ("%s|%s", (a, b))))
+        for binary in (False, True, 0, 1):
+            cases.append(("filesizeformat", (a, binary)))
+        for d in (0, 0.0, False, 7):
+            cases.append(("int", (a, d, 10)))
+            cases.append(("float", (a, d)))
+        if not isinstance(a, str):
+            for prec in (0, 1, True, False):
+                for m in ("common", "ceil", "floor"):
+                    cases.append(("round", (a, prec, m)))
+    vals = _twins() + [[1, 2], {"a": 1}, b"a b", b"/x", Markup("a&b"), (1, [2]), "a/b c", 2.5, [], ""]
+    for v in vals:
+        cases.append(("urlencode", ({"n": v},)))
+        cases.append(("urlencode", ([("n", v)],)))
+        cases.append(("urlencode", ([(v, "n")],)))
+        cases.append(("urlencode", ((("k", v), (v, v)),)))
+        try:
+            cases.append(("urlencode", ({v: "x"},)))
+        except TypeError:
+            pass
+    cases.append(("urlencode", ({"ids": [1, 2], "q": "a b", "n": {"x": [1]}},)))
+    return cases
+
+
+def history_eval(cases, order):
+    """evaluate the cases in `order`, then once more in `order`; returns two lists of canonical results (by case index)"""
+    jinja2 = core.import_jinja()
+    from jinja2 import filters as F
+    env = jinja2.Environment()
+    ectx = jinja2.nodes.EvalContext(env)
+
+    def one(filt, a):
+        try:
+            if filt in ("upper", "lower", "capitalize", "title", "striptags", "wordcount", "urlencode"):
+                r = getattr(F, "do_" + filt)(*a)
+            elif filt == "trim":
+                r = F.do_trim(*a)
+            elif filt == "center":
+                r = F.do_center(*a)
+            elif filt == "truncate":
+                r = F.do_truncate(env, *a)
+            elif filt == "indent":
+                r = F.do_indent(*a)
+            elif filt == "wordwrap":
+                r = F.do_wordwrap(env, *a)
+            elif filt == "replace":
+                r = F.do_replace(ectx, *a)
+            elif filt == "format":
+                r = F.do_format(a[0], *a[1])
+            elif filt == "filesizeformat":
+                r = F.do_filesizeformat(*a)
+            elif filt == "int":
+                r = F.do_int(*a)
+            elif filt == "float":
+                r = F.do_float(*a)
+            elif filt == "round":
+                r = F.do_round(*a)
+            else:
+                raise KeyError(filt)
+        except Exception as e:  # noqa
+            return exc_name(e)
+        return str(r) if isinstance(r, str) else repr(r)
+
+    rounds = []
+    for _ in range(2):
+        out = [None] * len(cases)
+        for i in order:
+            out[i] = one(*cases[i])
+        rounds.append(out)
+    return rounds
+
+
+def history_worker():
+    """entry point of the fresh interpreter: cases and order on stdin (pickle, base64), results as JSON"""
+    cases, order = pickle.loads(base64.b64decode(sys.stdin.buffer.read()))
+    json.dump(history_eval(cases, order), sys.stdout)
+
+
+def history_other_process(cases, order):
+    code = ("import sys; sys.path.insert(0, %r); sys.dont_write_bytecode = True; "
+            "from harness.props import c23; c23.history_worker()" % str(core.VERIF))
+    p = subprocess.run([sys.executable, "-B", "-c", code], input=base64.b64encode(pickle.dumps((cases, order))),
+                       capture_output=True, timeout=600, env=dict(os.environ))
+    if p.returncode != 0:
+        raise core.HarnessError("history worker failed: " + p.stderr.decode()[-1500:])
+    return json.loads(p.stdout.decode())
+
+
+def history_expected(cases):
+    """what each case must give, as a function of its arguments only: the Lean model where there is one (on the text form
+    of the receiver), the executable definitions of this file otherwise"""
+    reqs, slots, want = [], [], [None] * len(cases)
+
+    def ask(i, req, post=lambda x: x):
+        reqs.append(req)
+        slots.append((i, post))
+
+    for i, (filt, a) in enumerate(cases):
+        if filt == "upper":
+            want[i] = str(a[0]).upper()
+        elif filt == "lower":
+            want[i] = str(a[0]).lower()
+        elif filt == "capitalize":
+            want[i] = str(a[0]).capitalize()
+        elif filt == "title":
+            want[i] = ref_title(str(a[0]))
+        elif filt == "striptags":
+            ask(i, [Atom("fs"), Atom("striptags"), str(a[0])])
+        elif filt == "wordcount":
+            ask(i, [Atom("fs"), Atom("wordcount"), str(a[0])], str)
+        elif filt == "trim":
+            ask(i, [Atom("fs"), Atom("trim"), str(a[0]), Atom("none") if a[1] is None else a[1]])
+        elif filt == "center":
+            ask(i, [Atom("fs"), Atom("center"), str(a[0]), a[1]])
+        elif filt == "truncate":
+            ask(i, [Atom("fs"), Atom("truncate"), str(a[0]), a[1], a[2], a[3], a[4]])
+        elif filt == "indent":
+            ask(i, [Atom("fs"), Atom("indent"), str(a[0]), a[1] if isinstance(a[1], str) else " " * a[1], a[2], a[3]])
+        elif filt == "wordwrap":
+            want[i] = "\n".join("\n".join(textwrap.wrap(line, width=a[1], expand_tabs=False, replace_whitespace=False,
+                                                        break_long_words=a[2], break_on_hyphens=a[4])) for line in str(a[0]).splitlines())
+        elif filt == "replace":
+            ask(i, [Atom("fs"), Atom("replace"), str(a[0]), str(a[1]), str(a[2]), -1])
+        elif filt == "format":
+            enc = []
+            for v in a[1]:
+                try:
+                    d = "%d" % v
+                except TypeError:
+                    d = Atom("none")
+                enc.append([str(v), d])
+            ask(i, [Atom("fs"), Atom("format"), a[0], enc])
+        elif filt == "filesizeformat":
+            fr = Fraction(float(a[0]))
+            names = BIN if a[1] else DEC
+            ask(i, [Atom("fs"), Atom("filesize"), fr.numerator, fr.denominator, bool(a[1])],
+                lambda u, a=a, names=names: "1 Byte" if u[0] == "byte1" else f"{u[1]} Bytes" if u[0] == "bytes" else
+                f"{(1024 if a[1] else 1000) * float(a[0]) / (1024 if a[1] else 1000) ** (u[1] + 2):.1f} {names[u[1]]}")
+        elif filt == "int":
+            want[i] = repr(ref_int(a[0], a[1], a[2]))
+        elif filt == "float":
+            want[i] = repr(ref_float(a[0], a[1]))
+        elif filt == "round":
+            v, prec, m = a
+            want[i] = repr(round(v, prec) if m == "common" else getattr(math, m)(v * (10 ** prec)) / (10 ** prec))
+        elif filt == "urlencode":
+            v = a[0]
+            if isinstance(v, str) or not hasattr(v, "__iter__"):
+                want[i] = ref_quote(v, False)
+            else:
+                items = v.items() if isinstance(v, dict) else v
+                try:            # an iterable whose items are not pairs cannot be unpacked (Python's own error)
+                    want[i] = "&".join(f"{ref_quote(k, True)}={ref_quote(x, True)}" for k, x in items)
+                except (TypeError, ValueError) as e:
+                    want[i] = exc_name(e)
+    for (i, post), rep in zip(slots, core.driver_batch(reqs)):
+        if rep[0] == "ok":
+            want[i] = post(canon(rep[1]))
+        elif rep[0] == "err":
+            want[i] = "raised:" + str(rep[1]) if str(rep[1]) != "AssertionError" else "raised:AssertionError"
+        else:
+            want[i] = None          # out of model: only order-independence is checked
+    return want
+
+
+def run_history(ctx, res, stats):
+    cases = history_cases()
+    rng = ctx.rng("history")
+    order_a = list(range(len(cases)))
+    rng.shuffle(order_a)
+    order_b = list(reversed(order_a))
+    a1, a2 = history_eval(cases, order_a)                 # this process: must come before any other use of the filters
+    b1, b2 = history_other_process(cases, order_b)        # a fresh interpreter, opposite order
+    want = history_expected(cases)
+    per = {}
+    for i, (filt, a) in enumerate(cases):
+        got = [a1[i], a2[i], b1[i], b2[i]]
+        stats["evaluations"] += 4
+        per[filt] = per.get(filt, 0) + 1
+        stats["distinct"].add(("history", filt, repr(a)))
+        what_case = f"{filt}{_short_args(a)}"
+        if len(set(got)) > 1:
+            res.violate(f"C23:{filt}:history-dependent",
+                        f"{what_case} is not a function of its arguments: {a1[i]!r} / {a2[i]!r} (first / second evaluation, this order) but "
+                        f"{b1[i]!r} / {b2[i]!r} in a fresh interpreter with the cases in the opposite order; by its definition {want[i]!r}. "
+                        "The case list interleaves equal-valued arguments of different type (True/1/1.0, 0/0.0/-0.0/False, Markup/str, tuple/list)",
+                        {"history": True, "filter": filt, "index": i, "args": repr(a), "results": got, "expected": want[i]})
+        elif want[i] is not None and got[0] != want[i]:
+            res.violate(f"C23:{filt}:pure:definition",
+                        f"{what_case} gives {got[0]!r} in every order; the model / definition (a function of the arguments) gives {want[i]!r}",
+                        {"history": True, "filter": filt, "index": i, "args": repr(a), "results": got, "expected": want[i]})
+    stats["dist"]["history_cases"] = per
+
+
+def _short_args(a):
+    r = repr(tuple(a))
+    return r if len(r) < 160 else r[:150] + "…)"
+
+
 # --------------------------------------------------------------------------------------------------------------
 
 def run(ctx, res):
     jinja2 = core.import_jinja()
     impl = Impl(jinja2)
     stats = {"evaluations": 0, "distinct": set(), "dist": {}, "oom": 0}
+    run_history(ctx, res, stats)       # first: nothing has called a filter yet in this process
     n_small = run_grids(ctx, res, impl, stats)
     run_random(ctx, res, impl, stats)
     run_charclass(ctx, res, stats)
     run_filesize(ctx, res, impl, stats)
     run_convert(ctx, res, impl, stats)
     nref = run_reference(ctx, res, jinja2, impl, stats)
+    suspects = canon(core.driver_batch([[Atom("fs"), Atom("suspect-workers")]])[0][1])
+    stats["dist"]["memoised_or_unknown_decorators_on_workers"] = [f"{m}.{n}: {d} (filters {f})" for m, n, d, f in suspects]
     res.coverage.update({
         "evaluations": stats["evaluations"],
         "distinct_nontrivial": len(stats["distinct"]),
@@ -874,6 +1148,16 @@ def replay(ctx, case):
     impl = Impl(jinja2)
     c = case["case"]
     f = c.get("filter")
+    if c.get("history"):
+        cases = history_cases()
+        order_a = list(range(len(cases)))
+        core.rng_for(case.get("seed", ctx.seed), ID, "history").shuffle(order_a)
+        a1, a2 = history_eval(cases, order_a)
+        b1, b2 = history_other_process(cases, list(reversed(order_a)))
+        i = c["index"]
+        return {"case": {"filter": cases[i][0], "args": repr(cases[i][1])}, "this_order": [a1[i], a2[i]],
+                "opposite_order_fresh_interpreter": [b1[i], b2[i]], "expected": history_expected(cases)[i],
+                "how": f"all {len(cases)} history cases are evaluated in the recorded (seeded) order and in the opposite order"}
     if f in ("int", "float") and "sample" in c:
         kind, mk = tr_conv.samples()[c["sample"]]
         F = impl.F
